@@ -221,43 +221,90 @@ def closeWriter (st : State) : List Event :=
 
 An iterator caches per-segment dictionaries and postings of the snapshot that built it (`rv.dicts`,
 `rv.postings`, `rv.iterators` are reused when non-nil), so it must never be handed to another
-snapshot. `alloc` pops from the pool of the asking snapshot or makes a fresh iterator and sets
-`rv.snapshot = i`; `postingsIterator.Close` calls `i.snapshot.recyclePostingsIterator(i)`, which
-pushes onto the pool of *that* snapshot if the iterator is recyclable and the snapshot is still the
-root (`i.epoch == i.parent.currentEpoch()`). -/
+snapshot, and never to a second searcher while the first still uses it. `alloc` pops from the pool of
+the asking snapshot or makes a fresh iterator and sets `rv.snapshot = i`; `postingsIterator.Close` calls
+`i.snapshot.recyclePostingsIterator(i)`, which pushes onto the pool of *that* snapshot if the iterator
+is recyclable and the snapshot is still the root (`i.epoch == i.parent.currentEpoch()`).
+
+`restart` is the backward-seek path of `postingsIterator.Advance` (postings.go) as the code has it now:
+it builds a replacement `fresh` with `i.snapshot.PostingsIterator(…)`, swaps the two structs
+(`*i, *fresh = *fresh, *i`: the caller's object `i` carries the new state, `fresh` the old one, the
+`recycle` flags travel with the state) and closes `fresh`. `restartRecycleSelf` is the path as it was
+before commit a8a2358 (`_ = i.Close(); *i = *i2`): it recycled the very object the caller goes on using;
+it is kept only for the witness `pool_exclusive_violated` and excluded from the code's alphabet by the Gen
+obligation `no_close_then_reuse`. -/
 
 structure Pools where
   nI      : Nat                 -- iterators created
   owner   : Nat → Nat           -- `postingsIterator.snapshot`
   recyc   : Nat → Bool          -- `postingsIterator.recycle`
   pool    : Nat → List Nat      -- `Snapshot.fieldTFRs` (one field; the map key is orthogonal)
+  users   : Nat → Nat           -- how many searchers currently hold the iterator object
 
-def Pools.init : Pools := ⟨0, fun _ => 0, fun _ => false, fun _ => []⟩
+def Pools.init : Pools := ⟨0, fun _ => 0, fun _ => false, fun _ => [], fun _ => 0⟩
 
 inductive PEvent where
-  /-- `Snapshot(s).PostingsIterator` → `allocPostingsIterator` + `rv.snapshot = i` -/
+  /-- `Snapshot(s).PostingsIterator` → `allocPostingsIterator` + `rv.snapshot = i`; the caller uses it -/
   | alloc (s : Nat)
   /-- `unadornedPostingsIterator`: fresh, `recycle: false` -/
   | allocUnadorned (s : Nat)
-  /-- `postingsIterator(it).Close()` while `cur` is the root's epoch/snapshot -/
+  /-- the searcher that uses `it` is done: `postingsIterator(it).Close()` while `cur` is the root -/
   | close (it : Nat) (cur : Nat)
+  /-- `postingsIterator(it).Advance(n)` with `currID >= n`: replacement built, structs swapped, the
+      replacement object (now holding the old state) closed; the caller keeps using `it` -/
+  | restart (it : Nat) (cur : Nat)
+  /-- the same path before the fix: `it.Close()`, `*it = *i2`, the caller keeps using `it` -/
+  | restartRecycleSelf (it : Nat) (cur : Nat)
   deriving Repr, DecidableEq
+
+def PEvent.isOldRestart : PEvent → Bool
+  | .restartRecycleSelf _ _ => true
+  | _ => false
+
+/-- `allocPostingsIterator` (+ the fresh case): the new pools and the iterator handed out -/
+def Pools.take (p : Pools) (s : Nat) : Pools × Nat :=
+  match (p.pool s).reverse with
+  | it :: rest => ({ p with pool := upd p.pool s rest.reverse, owner := upd p.owner it s }, it)
+  | [] => ({ p with nI := p.nI + 1, owner := upd p.owner p.nI s, recyc := upd p.recyc p.nI true }, p.nI)
+
+/-- `recyclePostingsIterator` -/
+def Pools.recycle (p : Pools) (it cur : Nat) : Pools :=
+  if p.recyc it && p.owner it == cur then
+    { p with pool := upd p.pool (p.owner it) (p.pool (p.owner it) ++ [it]) }
+  else p
+
+/-- `*a, *b = *b, *a` as far as the pool cares: the `recycle` flags change places (same snapshot) -/
+def Pools.swapRecyc (p : Pools) (a b : Nat) : Pools :=
+  { p with recyc := upd (upd p.recyc a (p.recyc b)) b (p.recyc a) }
 
 /-- returns the new pools and (for `alloc`) the iterator handed out -/
 def Pools.step (p : Pools) : PEvent → Pools × Option Nat
   | .alloc s =>
-      match (p.pool s).reverse with
-      | it :: rest => ({ p with pool := upd p.pool s rest.reverse, owner := upd p.owner it s }, some it)
-      | [] => ({ p with nI := p.nI + 1, owner := upd p.owner p.nI s, recyc := upd p.recyc p.nI true }, some p.nI)
+      let (p1, it) := p.take s
+      ({ p1 with users := upd p1.users it (p1.users it + 1) }, some it)
   | .allocUnadorned s =>
-      ({ p with nI := p.nI + 1, owner := upd p.owner p.nI s, recyc := upd p.recyc p.nI false }, some p.nI)
+      ({ p with nI := p.nI + 1, owner := upd p.owner p.nI s, recyc := upd p.recyc p.nI false,
+                users := upd p.users p.nI (p.users p.nI + 1) }, some p.nI)
   | .close it cur =>
-      if p.recyc it && p.owner it == cur then
-        ({ p with pool := upd p.pool (p.owner it) (p.pool (p.owner it) ++ [it]) }, none)
-      else (p, none)
+      -- only a searcher that holds `it` closes it
+      if p.users it = 0 then (p, none)
+      else (({ p with users := upd p.users it (p.users it - 1) } : Pools).recycle it cur, none)
+  | .restart it cur =>
+      if p.users it = 0 then (p, none)
+      else
+        let (p1, fresh) := p.take (p.owner it)        -- `i2 := i.snapshot.PostingsIterator(...)`
+        ((p1.swapRecyc it fresh).recycle fresh cur, none)  -- `*i, *fresh = *fresh, *i; fresh.Close()`
+  | .restartRecycleSelf it cur =>
+      if p.users it = 0 then (p, none)
+      else
+        let (p1, _i2) := p.take (p.owner it)     -- `i2 := i.snapshot.PostingsIterator(...)`
+        (p1.recycle it cur, none)                -- `_ = i.Close()`; `*i = *i2`: still used by the caller
 
 def Pools.run (p : Pools) : List PEvent → Pools
   | [] => p
   | e :: es => Pools.run (p.step e).1 es
+
+/-- nobody uses a pooled iterator (so `alloc` never hands an iterator to a second searcher) -/
+def Pools.Exclusive (p : Pools) : Prop := ∀ s it, it ∈ p.pool s → p.users it = 0
 
 end Bluge.Refs
